@@ -13,7 +13,7 @@ reported as `fuelOut` and makes the correspondence fail, it never silently trunc
 
 `fixed : Bool` selects the variant of the included-range override test: `false` = the code as it
 is (`iterator_end_position(&old_iter)`), `true` = with fixes/C04-range-override-in-padding.diff
-(`iterator_compared_end_byte`).  `checks/c04.py` looks at the source to tell the driver which one
+(`iterator_compared_span`).  `checks/c04.py` looks at the source to tell the driver which one
 /repo currently has; every theorem is stated for both.
 
 The function also returns the *trace* of `(start, end)` pairs it handed to `ts_range_array_add`;
@@ -217,13 +217,12 @@ def iterCompare (al : AliasTable) (o n : Iter) : Cmp :=
     then .mayDiffer
     else .matches
 
-/-- End of the subtree that `iterator_compare` looks at (`iterator_compared_end_byte` of
-fixes/C04-range-override-in-padding.diff): in a node's padding that is the enclosing visible node. -/
-def Iter.comparedEndByte (al : AliasTable) (it : Iter) : Nat :=
-  let e := it.endPosition.bytes
+/-- Byte span of the subtree that `iterator_compare` looks at (`iterator_compared_span` of
+fixes/C04-range-override-in-padding.diff), merged into a given span. -/
+def Iter.comparedSpan (al : AliasTable) (it : Iter) (s e : Nat) : Nat × Nat :=
   match it.visibleState al with
-  | (some t, _, start) => max e (start + t.totalBytes)
-  | (none, _, _) => e
+  | (some t, _, start) => (min s start, max e (start + t.totalBytes))
+  | (none, _, _) => (s, e)
 
 def catchUp (al : AliasTable) (treeFuel : Nat) : Nat → Iter → Nat → Iter × Bool
   | 0, it, _ => (it, true)
@@ -256,8 +255,10 @@ structure LoopSt where
 /-- One iteration of the `do … while` body. -/
 def loopBody (al : AliasTable) (fixed : Bool) (diffs : List TSRange) (treeFuel : Nat) (s : LoopSt) : LoopSt :=
   let cmp0 := iterCompare al s.o s.n
-  let spanEnd := if fixed then s.o.comparedEndByte al else s.o.endPosition.bytes
-  let cmp := if cmp0 == .matches && intersects diffs s.diffIdx s.position.bytes spanEnd
+  let span := if fixed then s.o.comparedSpan al s.position.bytes s.o.endPosition.bytes
+              else (s.position.bytes, s.o.endPosition.bytes)
+  let startIdx := if fixed && span.1 < s.position.bytes then 0 else s.diffIdx
+  let cmp := if cmp0 == .matches && intersects diffs startIdx span.1 span.2
              then Cmp.mayDiffer else cmp0
   let (o, n, isChanged, nextPosition) :=
     match cmp with
